@@ -43,6 +43,7 @@ func main() {
 		ev.Fatal("replay: re-run the check; the violation detail names history and fault (%s)", r.Replay)
 	}
 	log.SetOutputter(nopOut{})
+	vfsSelfCheck()
 	workers := runtime.NumCPU()
 
 	depth := 4
@@ -68,7 +69,7 @@ func main() {
 		"evaluations":         st.runs + rt.runs,
 		"distinct_nontrivial": st.faultsFired + rt.runsWithFailure,
 		"rule": fmt.Sprintf("stores: every history of <=%d ops over {Create(k), Write1/Write2(w), Commit(w), Discard(w), Open(k,off in {0,1,len-1,len,len+1}), Stat(k), Discard(k)} on 2 keys x %d key configurations, ops enabled by the model state, on memoryStore and on fileStore over vfs://; each fileStore history re-run once per (file-operation label of its fault-free run) x (fail | failpartial for Write | crash); a fault run is non-trivial when the armed label fired. "+
-			"retryReader: DFS over all opener scripts over {D1,D2,D3,F,P1,P2,P3,O} up to length budget+2=%d (extensions of scripts whose tail is never consumed are pruned as equivalent), x {recovery, no recovery} x {EOF separate, EOF with last bytes} x read-buffer sizes; non-trivial = at least one scripted failure was consumed",
+			"retryReader: DFS over all opener scripts over {D1,D2,D3,F,P1,P2,P3,O} up to length budget+2=%d (deliveries larger than the read buffer are omitted as duplicates; extensions of scripts whose tail is never consumed are pruned as equivalent), x {recovery, no recovery} x {EOF separate, EOF with last bytes} x read-buffer sizes; non-trivial = at least one scripted failure was consumed",
 			depth, len(keyConfigs), rt.maxLen),
 		"stores": map[string]interface{}{
 			"depth":                         depth,
